@@ -38,11 +38,9 @@ var (
 )
 
 func GetGlobalTransactionManager() *GlobalTransactionManager {
-	if globalTransactionManager == nil {
-		onceGlobalTransactionManager.Do(func() {
-			globalTransactionManager = &GlobalTransactionManager{}
-		})
-	}
+	onceGlobalTransactionManager.Do(func() {
+		globalTransactionManager = &GlobalTransactionManager{}
+	})
 	return globalTransactionManager
 }
 
